@@ -17,6 +17,7 @@ import (
 	"github.com/flamego/flamego"
 	"github.com/flamego/flamego/inject"
 	sched "github.com/flamego/flamego/internal/verifsched"
+	vsync "github.com/flamego/flamego/internal/verifsync"
 )
 
 // ---- the small sharp drivers of C05 ----
@@ -405,6 +406,30 @@ var scenarios = []scenario{
 			h := hs[t]
 			w.f.Get(fmt.Sprintf("/boom/%d", t), func(c flamego.Context) { sched.Point(); w.own(c) }, h)
 		}
+		return w
+	}},
+	{Name: "before-hook-of-one-request-waits-for-another-request", Build: func(n int) *world {
+		w := newWorld(planFor(n, func(t int) []reqSpec {
+			return []reqSpec{{Method: "GET", Path: fmt.Sprintf("/turn/%d", t)}}
+		}))
+		// the Before hook of thread 0's request does not return until thread 1's request has been through its
+		// handler (a request that is slow before routing holds up nobody else); served alone, nothing waits
+		var other vsync.WaitGroup
+		other.Add(1)
+		w.f.Before(func(rw http.ResponseWriter, r *http.Request) bool {
+			if r.URL.Path == "/turn/0" && sched.Active() {
+				other.Wait()
+			}
+			return false
+		})
+		w.f.Use(func(c flamego.Context) { sched.Point() })
+		w.f.Get("/turn/{k}", func(c flamego.Context) string {
+			w.own(c)
+			if c.Param("k") == "1" && sched.Active() {
+				other.Done()
+			}
+			return "turn " + c.Param("k")
+		})
 		return w
 	}},
 	{Name: "request-bodies-read-and-held", Build: func(n int) *world {
